@@ -62,7 +62,10 @@ class DiskImageContentExtractor(DiskImageWorker):
                 if "/" in extractedFileName or "\0" in extractedFileName:
                     raise ValueError(f"invalid.file.name:{extractedFileName}")
                 targetPath = os.path.join(sidePath, extractedFileName)
-                if os.path.abspath(targetPath) == os.path.abspath(args.archive):
+                if os.path.abspath(targetPath) == os.path.abspath(args.archive) or (
+                    os.path.exists(targetPath)
+                    and os.path.samefile(targetPath, args.archive)
+                ):
                     # a file named like the archive, extracted onto it
                     raise ValueError(f"would.overwrite.the.archive:{targetPath}")
                 data = controller.readFile(entry)
